@@ -14,6 +14,7 @@ from ..ref import quat as rq
 PROP = "C02"
 LEVEL = "exploration"
 SHARDS = {"quick": 2, "thorough": 16}
+THOROUGH_DEPTH = 8      # thorough tier = this many times the base thorough budget (VERIF_DEPTH overrides)
 METHODS = [("shepperd", {}), ("hughes", {}), ("chiaverini", {}), ("itzhack", {"version": 1}),
            ("itzhack", {"version": 2}), ("itzhack", {"version": 3}), ("sarabandi", {})]
 ROBUST = {"shepperd", "itzhack"}
